@@ -40,6 +40,27 @@ CLAIMED = {
              text="Init/shutdown/re-init histories by several accounts with governance CollateralPrice changes between lock and refund; invariant and exact amounts checked after every transaction.",
              ref="5/C15"),
 }
+
+CLAIMED.update({
+ "C05": dict(tech="runtime panic monitor (recover around BeginBlock/EndBlock/Commit) under mutational history fuzzing of all 45 message types",
+             text="Histories mix semantically valid template messages with boundary/hostile field mutations and type-directed random messages of every registered type (round-robin), keep only ValidateBasic-passing transactions, and run through reward heights and gauge ends after each burst; the oracle is the un-recovered panic itself, so monitoring the ABCI entry points is exactly the observable the property names.",
+             ref="5/C05"),
+ "C10": dict(tech="runtime monitor: independent file-tree model vs raw KV dump of Files/value/ after every message",
+             text="Every handler signed by owner/editor/viewer/stranger with crafted strings; the model predicts the exact permitted diff and any other diff or unauthorised success is a finding.",
+             ref="5/C10"),
+ "C17": dict(tech="runtime invariant monitor over queries AllFiles/AllFilesByMerkle/AllFilesByOwner/Proof/ProofsByAddress/FindFile after every tx and BeginBlock",
+             text="Index equality, prover-list well-formedness and proof back-references are evaluated at every quiescent point of histories that exercise every path writing files or proofs (post, re-post, delete, prove, report, attest, shutdown, reward removals at every list position, chain drops).",
+             ref="5/C17"),
+ "C18": dict(tech="runtime monitor: reference inbox model vs queries AllNotificationsByAddress/AllNotifications/Notification after every message",
+             text="Create/delete/block histories among several accounts with address and name targets, same-block bursts, crafted From strings and name transfers; all inboxes compared with the model after every step.",
+             ref="5/C18"),
+ "C19": dict(tech="differential runtime monitor: KV dumps + ~150 query answers + module genesis before export vs after InitChain of a fresh app on the exported state",
+             text="Random histories that populate all 20 record kinds are exported with the real ExportAppStateAndValidators, validated, imported into a fresh app and compared record by record, query by query and export by export. Known, unrepaired losses (records with no protobuf genesis field; invalid-UTF-8 strings) are listed one signature per store prefix / query in known_findings.json; any other difference is a violation.",
+             ref="5/C19"),
+ "C20": dict(tech="runtime oracle: independent fold vs MerklePath/AddToMerkle on generated byte-string paths; on-chain trees via real transactions",
+             text="20k/1M generated segment sequences (all split points, trailing slash, distinctness over the sample) plus on-chain trees whose returned Path must equal the address computed from the plain path.",
+             ref="5/C20"),
+})
 NOT_BUILT = "monitor not built yet in this session (design in DESIGN.md section 5); will be claimed once its check runs clean"
 
 hooks_commits = subprocess.run(["git", "-C", "/repo", "log", "--format=%H", "--grep=^verif hooks"], capture_output=True, text=True).stdout.split()
